@@ -21,8 +21,12 @@ MANIFEST = {
                   "boxes, the leaves above, any nesting) whose tree is exact re-encodes bit for bit; C01_file_tree: the same for a "
                   "concatenation of top-level boxes (box loop of DecodeFileSR, File.Encode in box-tree mode); C01_why_complete / "
                   "C01_explained: the model's list of reasons for not reproducing an input (why_box) is complete -- no reason, then the "
-                  "Go encoders' bytes ARE the input; C01_fixpoint_partial / C01_file_boxtree_partial: decode(encode(x)) is a fixed point "
-                  "for inputs whose reserved bytes already have the encoder's values (the general fixed point is explored, not proved); "
+                  "Go encoders' bytes ARE the input; C01_fixpoint (GENERAL, no hypothesis on the reserved bytes): for every slice "
+                  "accepted completely with an exact tree t the Go encoders' bytes enc have the input's length = Size(), decode again "
+                  "to norm_box t (= t up to the captured reserved bytes) and encode to enc again; C01_file_boxtree: the same for a "
+                  "file in box-tree mode; they rest on C01_header_local / C01_leaf_stable / C01_pre_stable: every decoder of the "
+                  "dispatch tables is local (never looks behind the bytes it consumes) and print-then-parse holds for every leaf "
+                  "kind (decoder applied to the encoder's bytes returns the same value, for all values the decoder can return); "
                   "every excluded shape / defect class is witnessed by a *_refuted theorem; complete real files (an init segment and a "
                   "media segment of /repo testdata) decode inside Coq, are exact and re-encode to themselves (C01_real_*). EXPLORATION "
                   "for every other registered box type (all ~150 reached through harvested testdata boxes, hand-written seeds, "
